@@ -5,6 +5,8 @@ Real code: CodeGenerator._generate_code -> _generate_with_line_buffer -> LimitEm
 nunavut.lang._common.UniqueNameGenerator, DSDLCodeGenerator._generate_type / generate_all over the real C templates.
 """
 import os
+
+import xh.xhpatch  # noqa: F401  (switches off CrossHair short-circuiting, see module docstring)
 import typing
 
 import pydsdl
